@@ -1057,7 +1057,7 @@ func Prop() *core.Prop {
 		},
 		Cases: func(tier string) int {
 			if tier == "thorough" {
-				return 500000
+				return 2000000
 			}
 			return 5000
 		},
